@@ -175,14 +175,15 @@ pub fn pass_live(rec: &SessionRec) -> Vec<Finding> {
   }
   // Abort diagnostics: a diagnosed write-side violation through Context::write must abort before modification.
   if let Some(msg) = &rec.aborted {
-    if msg.starts_with("Hidden dependency") || msg.starts_with("Overlapping write") {
+    let kind = crate::hist::abort_kind(msg);
+    if kind == "hidden-dependency" || kind == "overlapping-write" {
       // the innermost pending WriteCall (if the abort came from a write): no write function may have run after it
       if let Some(j) = evs.iter().rposition(|e| matches!(e, Ev::WriteCall { .. } | Ev::ReadCall { .. } | Ev::ReqCall { .. })) {
         if let Ev::WriteCall { via: Via::Ctx, res, task, .. } = &evs[j] {
           let completed = evs[j..].iter().any(|e| matches!(e, Ev::WriteRet { task: t, res: r, .. } if t == task && r == res));
           if !completed {
             if let Some(k) = evs[j..].iter().position(|e| matches!(e, Ev::WriteFnEnter { .. } | Ev::WriterSet { .. })) {
-              let prop = if msg.starts_with("Hidden") { "C05" } else { "C06" };
+              let prop = if kind == "hidden-dependency" { "C05" } else { "C06" };
               out.push(f(prop, "abort-after-modification", j + k, format!("write of R{} by T{} was aborted ({}) after the resource had already been opened for modification", res, task, &msg[..msg.len().min(40)])));
             }
           }
